@@ -274,6 +274,13 @@ def getNum (k : String) : Option (Fld V R) → Except Err (Option Rat)
   | none => .error (.keyError k)
   | _ => .error (.badField k)
 
+/-- `d.get(k)`: an absent key reads as `None` -/
+def getNumOpt (k : String) : Option (Fld V R) → Except Err (Option Rat)
+  | some (.num q) => .ok (some q)
+  | some .none => .ok none
+  | none => .ok none
+  | _ => .error (.badField k)
+
 def getAny (k : String) : Option (Fld V R) → Except Err (Option (Fld V R))
   | some f => .ok (some f)
   | none => .error (.keyError k)
@@ -301,7 +308,7 @@ def readRow (c : Config) (fl : Flags) (d : Dict (Fld V R)) : Except Err (RowIn V
   let rewards ← whenHas fl.hasRewards (getAny "rewards" (d.get? "rewards"))
   let offRwd ← whenHas fl.hasReward (getNum "reward" (d.get? "reward"))
   let offAct ← whenHas fl.hasAction (getVal "action" (d.get? "action"))
-  let offPr ← whenHas fl.hasProb (getNum "probability" (d.get? "probability"))
+  let offPr ← getNumOpt "probability" (d.get? "probability")   -- `interaction.get('probability', None)`: read per interaction (fix C06-F8)
   let lrnRwds ← lrnSel c d rewards
   let valRwds ← valSel c d rewards
   pure { ctx, acts, rewards, offRwd, offAct, offPr, lrnRwds, valRwds, extras := extrasOf d }
